@@ -435,6 +435,7 @@ class RetryExecutor(CanCustomizeBind, Executor):
         if delegate_future.cancelled():
             # nothing to do, retrying on cancel is not allowed
             self._log.debug("Delegate was cancelled: %s", delegate_future)
+            self._pop_job(found_job)
             found_job.future._me_delegate_cancelled()
             return
 
